@@ -22,6 +22,7 @@ def run(rep, facts):
     rep.rule("R3.5", "decode failures are classified identically at all three header sites: unknown version => error without consuming; unknown type => one UnknownType reply and skip; other => Protocol error")
     rep.rule("R3.6", "From<parser::Error> for io::Error is the documented total table")
     rep.rule("R3.7", "conversions at non-final states fail without side effects (Interrupted), final states convert (see R5.1-R5.3)")
+    rep.rule("R3.9", "the GetValues name-value decoder sees at most the record's remaining payload and the reply is emitted only for a complete body (otherwise the emitted bytes would depend on read chunking)")
     rep.rule("R3.8", "stream::Parser::parse: every successful return passes the processing loop's entry test (no early-out that would leave buffered records unparsed)")
 
     # ---- R3.1 ---------------------------------------------------------------------------------------------
@@ -155,6 +156,13 @@ def run(rep, facts):
         rep.ok("R3.8", "stream-parse/always-processes", "all %d Ok paths add new_input to free_start and pass the `raw_start < free_start` loop test" % n, b.loc())
     else:
         rep.violation("R3.8", "stream-parse/always-processes", "%d of %d Ok paths return without entering the processing loop" % (bad, n), b.loc())
+
+    # ---- R3.9: chunking-invariance of the emitted GetValues reply needs the decoder bounded by the record's payload ----
+    sr = check.Report("tmp", "quick")
+    c04.r4_2_getvalues(sr, facts)
+    for i in sr.instances:
+        if i["instance"].endswith("/decoder-bounded") or i["instance"].endswith("/complete-body"):
+            (rep.ok if i["status"] == "ok" else rep.violation)("R3.9", i["instance"], i["detail"], i["loc"])
 
     # ---- information only: panic-capable sites -----------------------------------------------------------------
     inv = {}
